@@ -1220,6 +1220,13 @@ def enc7(cfg):
             ens = [_x(f, e['args'][0], inits) for b, i, e in f.elements() if e.get('k') == 'call' and e.get('name') == 'ensure_available' and e.get('args')]
             mc = [[_x(f, a, inits) for a in e['args']] for b, i, e in f.elements() if e.get('k') == 'call' and e.get('name') in ('memcpy', '__builtin_memcpy') and len(e.get('args', [])) == 3]
             adv = [_x(f, e['r'], inits) for b, i, e in f.elements() if e.get('k') == 'binop' and e.get('op') == '+=' and _x(f, e['l']) == 'this.off']
+            for b, i, e in f.elements():
+                if e.get('k') == 'binop' and e.get('op') == '=' and _x(f, e['l']) == 'this.off':
+                    m_ = re.fullmatch(r'\(this\.off \+ (.*)\)', _x(f, e['r'], inits)) or re.fullmatch(r'\((.*) \+ this\.off\)', _x(f, e['r'], inits))
+                    adv.append(m_.group(1) if m_ else _x(f, e['r'], inits))
+            if len(ens) != 1 or len(mc) != 1 or len(adv) != 1:
+                res.incompl('ENC-7: %s::%s(span) is not one reservation, one memcpy and one advance of the offset (%d / %d / %d): shape not recognised' % (cname, f.short, len(ens), len(mc), len(adv)))
+                continue
             n = ens[0] if ens else None
             ok = len(ens) == 1 and n in ('p0.size_bytes()', 'p0.size()') and mc == [['(this.buf + this.off)', 'p0.data()', n]] and adv == [n]
             res.ob(ok, {'rule': 'ENC-7', 'function': '%s::%s(span)' % (cname, f.short), 'reserve': ens, 'copy': mc, 'advance': adv, 'verdict': 'discharged' if ok else 'VIOLATION'})
